@@ -35,6 +35,7 @@ type expKeyModel struct {
 	live     bool
 	deadline uint32 // unix seconds; 0 = never
 	lastCas  uint64
+	row      bool // some call on the key succeeded since the collection was created: a document or a tombstone is there
 }
 
 func genExpScenario(rt *rapid.T) expScenario {
@@ -42,9 +43,19 @@ func genExpScenario(rt *rapid.T) expScenario {
 	keys := []string{"a", "b", "c"}
 	n := rapid.IntRange(2, 9).Draw(rt, "nactions")
 	at := 0
+	// the collections share one timer: in 40% of the two-collection scenarios one collection first gets
+	// a document with a distant deadline and the other one most of the later (short) ones
+	far := -1
+	if sc.Colls == 2 && chance(rt, 40, "far") {
+		far = rapid.IntRange(0, 1).Draw(rt, "far.c")
+		sc.Actions = append(sc.Actions, expAction{AtMs: 0, K: "Set", Key: pick(rt, keys, "far.key"), C: far, TTL: pick(rt, []int{60, 3600}, "far.ttl")})
+	}
 	for i := 0; i < n; i++ {
 		at += rapid.IntRange(0, 6).Draw(rt, "gap") * 100
 		a := expAction{AtMs: at, Key: pick(rt, keys, "key"), C: rapid.IntRange(0, sc.Colls-1).Draw(rt, "c")}
+		if far >= 0 && chance(rt, 70, "far.other") {
+			a.C = 1 - far
+		}
 		a.K = pick(rt, []string{"Add", "ReAdd", "Set", "SetPreserve", "WriteCas", "Touch", "Touch", "GetAndTouchRaw", "GetAndTouchRaw", "WriteWithXattrs", "Update", "UpdateExp", "UpdateXattrs", "WriteUpdateX", "WriteUpdateXRetry", "SetWithMeta", "Delete", "DeleteWithXattrs", "Remove", "Incr", "Reopen", "Recreate"}, "k")
 		a.TTL = pick(rt, []int{1, 1, 2, 2, 3, 4, 0, 60, 3600}, "ttl")
 		a.Abs = rapid.Bool().Draw(rt, "abs")
@@ -156,9 +167,12 @@ func runExpScenario(sc expScenario, windowSec int) (res expResult) {
 			err = ds.Set(a.Key, exp, &sgbucket.UpsertOptions{PreserveExpiry: true}, body)
 			if err == nil {
 				if !m.live {
-					m.deadline = newDeadline() // nothing to preserve (DESIGN 2.2: tombstone + PreserveExpiry is a don't-care: read it back)
-					if e, gerr := ds.GetExpiry(ctx, a.Key); gerr == nil {
-						m.deadline = e
+					m.deadline = newDeadline() // nothing to preserve: the expiry given applies
+					if m.row {
+						// (DESIGN 2.2: tombstone + PreserveExpiry is a don't-care: read it back)
+						if e, gerr := ds.GetExpiry(ctx, a.Key); gerr == nil {
+							m.deadline = e
+						}
 					}
 				}
 				m.live, wrote = true, true
@@ -329,7 +343,7 @@ func runExpScenario(sc expScenario, windowSec int) (res expResult) {
 			}
 			for k, km := range model {
 				if k.c == 1 {
-					km.live, km.deadline = false, 0
+					km.live, km.deadline, km.row = false, 0, false
 				}
 			}
 			args := sgbucket.FeedArguments{ID: fmt.Sprintf("expR%d", a.AtMs), Backfill: sgbucket.FeedNoBackfill, Terminator: make(chan bool)}
@@ -363,6 +377,9 @@ func runExpScenario(sc expScenario, windowSec int) (res expResult) {
 				pendingMin = m.deadline
 				lastArmer = a.K
 			}
+		}
+		if err == nil && a.K != "Reopen" && a.K != "Recreate" {
+			m.row = true
 		}
 		res.log = append(res.log, fmt.Sprintf("+%dms %s %s/%s ttl=%d abs=%v -> err=%v deadline=%d live=%v", a.AtMs, a.K, cfg.Colls[a.C], a.Key, a.TTL, a.Abs, err, m.deadline, m.live))
 	}
